@@ -68,7 +68,7 @@ def run_ch(ob, budget: float) -> dict:
         opts.deadline = time.process_time() + budget
         res = analyze_calltree(opts, conds)
     status = res.verification_status.name  # CONFIRMED / REFUTED / UNKNOWN
-    msgs = [{"state": m.state.name, "message": m.message} for m in res.messages]
+    msgs = [{"state": m.state.name, "message": m.message, "traceback": (m.traceback or "")[-2500:]} for m in res.messages]
     out = {
         "paths": int(opts.stats["num_paths"]) if opts.stats else 0,
         "confirmed_paths": res.num_confirmed_paths,
